@@ -1,2 +1,144 @@
-def run(prop, cfg, here, out, repo):
-    return None
+"""Contract-strength self-test (thorough tier): a fixed list of semantic edits is applied to a
+scratch COPY of the files under contract (never to /repo) and the units are re-run against the
+copy; every edit must turn an obligation red.  The result is reported in evidence
+(coverage.self_test); a miss is a weakness of the machinery and never an alarm about /repo."""
+import concurrent.futures as cf
+import os
+import re
+import shutil
+import tempfile
+
+from .verus_run import run_unit
+from . import kani_run as K
+
+ST = "crates/lib/mimium-lang/state-tree/src/"
+RT = "crates/lib/mimium-lang/src/runtime/"
+SCH = "crates/lib/plugins/mimium-scheduler/src/"
+PAR = "crates/lib/mimium-lang/src/compiler/parser/"
+
+# (id, file, old, new, kind, unit[, harnesses])
+EDITS = {
+    "C08": [
+        ("st01", ST + "tree.rs", ".take(child_idx)", ".take(child_idx + 1)", "verus", "state_tree"),
+        ("st02", ST + "tree.rs", "if child_idx >= children.len() {", "if child_idx > children.len() {", "verus", "state_tree"),
+        ("st03", ST + "tree.rs", "DELAY_ADDITIONAL_OFFSET as u64 + *len", "*len", "verus", "state_tree"),
+        ("st04", ST + "tree.rs", "Some((offset as usize + child_offset, size))", "Some((child_offset, size))", "verus", "state_tree"),
+        ("st05", ST + "tree_diff.rs", "len1 == len2", "len1 >= len2", "verus", "state_tree"),
+        ("st06", ST + "tree_diff.rs", "c1.len() == c2.len() && ", "", "verus", "state_tree"),
+        ("st07", ST + "tree_diff.rs", "o == old_index && n == new_index", "o == old_index", "verus", "state_tree"),
+        ("st08", ST + "tree_diff.rs", ".path_to_address(&new_path)", ".path_to_address(&old_path)", "verus", "state_tree"),
+        ("st09", ST + "tree_diff.rs", "                i -= 1;\n                j -= 1;", "                i -= 1;", "verus", "state_tree"),
+        ("st10", ST + "tree_diff.rs", "results.push(DiffResult::Insert { new_index: j - 1 });\n                j -= 1;\n            } else if i > 0 {",
+         "results.push(DiffResult::Insert { new_index: j });\n                j -= 1;\n            } else if i > 0 {", "verus", "state_tree"),
+        ("st11", ST + "tree_diff.rs", "        } else if i > 0 {\n            results.push(DiffResult::Delete { old_index: i - 1 });", "        } else if i > 0 {\n            results.push(DiffResult::Delete { old_index: i });", "verus", "state_tree"),
+        ("st12", ST + "tree_diff.rs", "build_patches_recursive(old_skeleton, new_skeleton, vec![], vec![])", "build_patches_recursive(old_skeleton, new_skeleton, vec![0], vec![])", "verus", "state_tree"),
+        ("st13", ST + "patch.rs", "let dst_end = patch.dst_addr + patch.size;", "let dst_end = patch.dst_addr + patch.size + 1;", "verus", "state_tree"),
+        ("st14", ST + "patch.rs", "&old_storage[patch.src_addr..src_end]", "&old_storage[patch.dst_addr..dst_end]", "verus", "state_tree"),
+        ("st15", ST + "lib.rs", "let total_size = new_state_skeleton", "let total_size = old_state_skeleton", "verus", "state_tree"),
+        ("st16", ST + "lib.rs", "if old_state_skeleton == new_state_skeleton {", "if old_state_skeleton != new_state_skeleton {", "verus", "state_tree"),
+        ("st17", ST + "lib.rs", "vec![0u64; patch_plan.total_size]", "vec![1u64; patch_plan.total_size]", "verus", "state_tree"),
+        ("st18", ST + "tree_diff.rs", "size,\n        }]", "size: size + 1,\n        }]", "verus", "state_tree"),
+        ("st19", ST + "tree_diff.rs", "child_patches_map.push(((old_idx, new_idx), patches, score));", "child_patches_map.push(((new_idx, old_idx), patches, score));", "verus", "state_tree"),
+    ],
+    "C05": [
+        ("rb01", RT + "vm/ringbuffer.rs", "*self.write_idx = (write_idx + 1) % len;", "*self.write_idx = write_idx + 1;", "kani", "runtime"),
+        ("rb02", RT + "vm/ringbuffer.rs", "let read_idx = (write_idx + len - delay_samples) % len;", "let read_idx = (write_idx + len - delay_samples - 1) % len;", "kani", "runtime"),
+        ("rb03", RT + "vm/ringbuffer.rs", "let data_head = head.offset(2);", "let data_head = head.offset(1);", "kani", "runtime"),
+        ("rb04", RT + "vm/ringbuffer.rs", "let max_delay = (len - 1) as f64;", "let max_delay = len as f64;", "kani", "runtime"),
+        ("vm01", RT + "vm.rs", "let head = self.rawdata.as_ptr().add(self.pos);", "let head = self.rawdata.as_ptr().add(self.pos + 1);", "kani", "runtime"),
+        ("vm02", RT + "vm.rs", "self.pos = (self.pos as u64 - (std::convert::Into::<u64>::into(offset))) as usize;", "self.pos = (self.pos as u64 - (std::convert::Into::<u64>::into(offset)) + 1) as usize;", "kani", "runtime"),
+        ("wa01", RT + "wasm.rs", "current.data[pos + 1] = (write_idx + 1) % len;", "current.data[pos + 1] = write_idx + 1;", "kani", "runtime"),
+        ("wa02", RT + "wasm.rs", "let write_idx = current.data[pos + 1] % len;", "let write_idx = current.data[pos] % len;", "kani", "runtime"),
+        ("wa03", RT + "wasm.rs", "    current.data[pos] = input.to_bits();\n\n    old_value", "    current.data[pos] = old_bits;\n\n    old_value", "kani", "runtime"),
+        ("wa04", RT + "wasm.rs", "        current.pos = current.pos.saturating_sub(delta);\n    } else {\n        let delta_u64 = offset.unsigned_abs();\n        let delta = usize::try_from(delta_u64).unwrap_or(usize::MAX);\n        current.pos = current.pos.saturating_add(delta);",
+         "        current.pos = current.pos.saturating_sub(delta + 1);\n    } else {\n        let delta_u64 = offset.unsigned_abs();\n        let delta = usize::try_from(delta_u64).unwrap_or(usize::MAX);\n        current.pos = current.pos.saturating_add(delta);", "kani", "runtime"),
+        ("st01", ST + "tree.rs", ".take(child_idx)", ".take(child_idx + 1)", "verus", "state_tree"),
+        ("st03", ST + "tree.rs", "DELAY_ADDITIONAL_OFFSET as u64 + *len", "*len", "verus", "state_tree"),
+    ],
+    "C12": [
+        ("hp01", RT + "vm/heap.rs", "        obj.refcount -= 1;\n        log::trace!(\"heap_release: {:?} refcount -> {}\", idx, obj.refcount);", "        obj.refcount -= 2;\n        log::trace!(\"heap_release: {:?} refcount -> {}\", idx, obj.refcount);", "both", "heap"),
+        ("hp02", RT + "vm/heap.rs", "        if obj.refcount == 0 {\n            log::trace!(\"heap_release: freeing {idx:?}\");", "        if obj.refcount <= 1 {\n            log::trace!(\"heap_release: freeing {idx:?}\");", "both", "heap"),
+        ("hp03", RT + "vm/heap.rs", "obj.refcount += 1;", "obj.refcount += 2;", "both", "heap"),
+        ("hp04", RT + "vm/heap.rs", "        log::trace!(\"heap_release_closure: freeing {idx:?}\");\n        storage.remove(idx);", "        log::trace!(\"heap_release_closure: freeing {idx:?}\");", "both", "heap"),
+        ("hp05", RT + "vm/heap.rs", "            refcount: 1,\n            size,\n            data: vec![0; size],", "            refcount: 0,\n            size,\n            data: vec![0; size],", "verus", "heap"),
+        ("hp06", RT + "vm/heap.rs", "        obj.refcount == 0\n    } else {", "        obj.refcount <= 1\n    } else {", "both", "heap"),
+    ],
+}
+
+
+def _files_needed(here, cfg):
+    paths = set()
+    for u in cfg.get("verus_units", []):
+        t = open(os.path.join(here, "contracts", u + ".vrs")).read()
+        paths |= set(re.findall(r"//@ cut (\S+) ::", t))
+    for ku in cfg.get("kani_units", []):
+        d = os.path.join(here, "kani", ku["unit"])
+        for root, _, names in os.walk(d):
+            for nm in names:
+                t = open(os.path.join(root, nm)).read()
+                paths |= set(re.findall(r"//@KCUT(?:_X1)? (\S+) ::", t))
+                paths |= set(re.findall(r'@REPO@/([^"]+)"', t))
+    return paths
+
+
+def make_scratch(repo, paths, base):
+    d = tempfile.mkdtemp(prefix="vx-selftest-", dir=base)
+    for p in paths:
+        src = os.path.join(repo, p)
+        dst = os.path.join(d, p)
+        os.makedirs(os.path.dirname(dst), exist_ok=True)
+        shutil.copy(src, dst)
+    if os.path.exists(os.path.join(repo, "Cargo.lock")):
+        shutil.copy(os.path.join(repo, "Cargo.lock"), os.path.join(d, "Cargo.lock"))
+    return d
+
+
+def run(prop, cfg, here, out, repo, only=None):
+    edits = EDITS.get(prop, [])
+    if only:
+        edits = [e for e in edits if e[0] in only]
+    if not edits:
+        return None
+    paths = _files_needed(here, cfg)
+    base = os.path.join(out, "selftest")
+    os.makedirs(base, exist_ok=True)
+    caught, missed, not_applied, details = [], [], [], []
+
+    def one(e):
+        eid, path, old, new, kind, unit = e[:6]
+        sc = make_scratch(repo, paths, base)
+        try:
+            fp = os.path.join(sc, path)
+            txt = open(fp).read()
+            if txt.count(old) < 1:
+                return eid, "not-applied", "anchor text not found"
+            open(fp, "w").write(txt.replace(old, new, 1))
+            red = []
+            if kind in ("verus", "both"):
+                od = os.path.join(sc, "_out")
+                os.makedirs(od, exist_ok=True)
+                r = run_unit(unit, os.path.join(here, "contracts", unit + ".vrs"), od, 30, None, False, None, sc, threads=2)
+                if r.status == "violation":
+                    red += [f"{f['fn']}::{f['kind']}" for f in r.failed]
+                elif r.status == "undecided":
+                    red += []  # undecided does not count as caught
+                    und = r.reason
+            if kind in ("kani", "both"):
+                for ku in cfg.get("kani_units", []):
+                    rs = K.run_kani(ku["unit"], ku["harnesses"], here, os.path.join(sc, "_out"), sc,
+                                    dict(ku.get("subst_quick", {})), "", instance="st-" + eid, timeout=1500)
+                    for r in rs:
+                        if r["status"] == "violation":
+                            red.append(r["harness"])
+            return eid, ("caught" if red else "missed"), sorted(set(red))[:6]
+        finally:
+            shutil.rmtree(sc, ignore_errors=True)
+
+    with cf.ThreadPoolExecutor(max_workers=6) as ex:
+        for eid, st, info in ex.map(one, edits):
+            details.append({"edit": eid, "result": st, "obligations": info})
+            (caught if st == "caught" else missed if st == "missed" else not_applied).append(eid)
+    shutil.rmtree(base, ignore_errors=True)
+    return {"applied": len(caught) + len(missed), "caught": len(caught), "missed": missed,
+            "not_applied": not_applied, "details": details,
+            "note": "edits are applied to a scratch copy of the files under contract, never to /repo"}
